@@ -1,4 +1,4 @@
-import Holpy.C13.Import
+import Holpy.C13.RoundTrip
 /-
 C13 — property theorems, fourth file: the textual round trip on the structural level
 (Holpy/C13/ExportModel.lean; arguments and sequents are opaque codes that read back by hypothesis —
@@ -21,18 +21,24 @@ example : (match importLines [] [⟨[0], 3, [], none⟩, ⟨[2], 5, [], none⟩]
     | .ok _ => false
     | .error _ => true) = true := by decide
 
-/-- Export followed by import is the identity on proofs without subproofs whose lines carry the ids
-of their positions: same ids, rules, citations, sequents.  Partial: for proofs with subproofs the
-round trip is not proved; it is compared on every state the oracle reaches (stream `import`: the
-model's `importLines (exportLines s)` against the structure of the real `parse_proof(json_data)`). -/
-theorem export_import_id_partial (s : Proof) (hf : flatOk s) (hn : numberedFrom [] 0 s = true) :
+/-- Export followed by import is the identity: for every proof — subproofs at any depth — whose
+lines carry the ids of their positions and whose `subproof` lines have a non-empty subproof
+(`subExactList`: `subproof is not None` exactly where there are subproof lines), `parse_proof` of the
+exported lines rebuilds the same tree: same ids, rules, citations, sequents, same nesting. -/
+theorem export_import_id (s : Proof) (hn : numberedFrom [] 0 s = true) (hs : subExactList s = true) :
     importLines [] (exportLines s) = .ok s := by
-  rw [export_flat s hf]
-  simpa using import_flat s [] hf (by simpa using hn)
+  have := import_export_list s [] [] [] (by simp [subExactList]) (by simp [getAtE]) (by simpa using hn) hs
+  simpa [modifyAtE] using this
 
-example : flatOk [.mk [0] ruleSorry [] (some ⟨5, []⟩) false [], .mk [1] 4 [[0]] (some ⟨5, []⟩) false []] := by
-  intro it hit
-  simp at hit
-  rcases hit with h | h <;> subst h <;> exact ⟨rfl, rfl⟩
+/-- a proof with a subproof inside a subproof -/
+def nested : Proof :=
+  [.mk [0] 3 [] (some ⟨1, []⟩) true
+      [.mk [0, 0] 4 [] (some ⟨2, [2]⟩) false [],
+       .mk [0, 1] 3 [] (some ⟨3, [2]⟩) true
+         [.mk [0, 1, 0] 4 [] (some ⟨4, [4]⟩) false [], .mk [0, 1, 1] 1 [[0, 1, 0], [0, 0]] (some ⟨5, [2, 4]⟩) false []],
+       .mk [0, 2] 5 [[0, 0], [0, 1]] (some ⟨1, []⟩) false []],
+   .mk [1] 5 [[0]] (some ⟨1, []⟩) false []]
+
+example : numberedFrom [] 0 nested = true ∧ subExactList nested = true ∧ (exportLines nested).length = 7 := by decide
 
 end Holpy.C13
